@@ -2,6 +2,7 @@ package amsim
 
 import (
 	"encoding/json"
+	"fmt"
 	"regexp"
 	"sort"
 	"strings"
@@ -225,9 +226,47 @@ type Model struct {
 	keyRoutes      map[string]map[*MRoute]bool
 	// Union: notifications of every instance count (cluster: any instance may discharge an obligation).
 	Union bool
+	roots map[int]*MRoute
 }
 
 func (m *Model) mine(n *Notif) bool { return m.Union || n.Inst == m.Name }
+
+// cfgAt returns the index of the configuration in force at t (initial one, then
+// whatever accepted reloads installed).
+func (m *Model) cfgAt(t Dur) int {
+	idx := m.P.Insts[m.Inst].Cfg
+	for _, e := range m.H.Events {
+		if e.Inst == m.Name && e.Kind == "reload" && e.T <= t {
+			fmt.Sscanf(e.Msg, "cfg=%d", &idx)
+		}
+	}
+	return idx
+}
+
+// repAt returns the repeat_interval of route r under the configuration in force
+// at t. Reloads in generated plans change timers only, never the shape of the
+// tree, so a route is found again by its position path.
+func (m *Model) repAt(r *MRoute, t Dur) Dur {
+	idx := m.cfgAt(t)
+	if idx == m.P.Insts[m.Inst].Cfg || idx < 0 || idx >= len(m.P.Configs) || m.P.Configs[idx].Route == nil {
+		return r.RepeatInterval
+	}
+	if m.roots == nil {
+		m.roots = map[int]*MRoute{}
+	}
+	root := m.roots[idx]
+	if root == nil {
+		root = buildRoutes(m.P.Configs[idx].Route, nil, "0")
+		m.roots[idx] = root
+	}
+	out := r.RepeatInterval
+	root.Walk(func(x *MRoute) {
+		if x.Path == r.Path {
+			out = x.RepeatInterval
+		}
+	})
+	return out
+}
 
 // KeyRoutes maps every (receiver, group key) seen in this instance's
 // notifications to the routes it can belong to: the routes r with that receiver
